@@ -79,7 +79,7 @@ fn scenario(max_steps: usize) -> BoxedStrategy<Case> {
     };
     let member = |o: Expr, m: &str| Expr::Member(Box::new(o), m.to_string());
     let index = |o: Expr, i: &str| Expr::Index(Box::new(o), Box::new(Expr::Num(i.to_string())));
-    (0usize..6, any::<bool>(), any::<bool>(), gen::data::keyed_list(), proptest::collection::vec(gen::data::scalar(), 0..4), gen::data::scalar(), gen::data::scalar(), proptest::collection::vec(gen::history::step(), 1..=max_steps), any::<u64>())
+    (0usize..8, any::<bool>(), any::<bool>(), gen::data::keyed_list(), proptest::collection::vec(gen::data::scalar(), 0..4), gen::data::scalar(), gen::data::scalar(), proptest::collection::vec(gen::history::step(), 1..=max_steps), any::<u64>())
         .prop_map(move |(shape, keyed, lead, list, c, a, b, steps, style)| {
             let for_ = |list: Expr, key: Option<&str>, kids: Vec<Node>| Node::For(Box::new(ForNode { list: Val::Bind(list), item: None, index: None, key: key.map(|k| k.to_string()), kids, carrier: Carrier::Block }));
             let mut named = vec![];
@@ -99,6 +99,12 @@ fn scenario(max_steps: usize) -> BoxedStrategy<Case> {
                 3 => vec![for_(spread_arr(lead), None, vec![txt(vec![bind(id("item")), lit("@"), bind(id("index"))])])],
                 // member of such a literal
                 4 => vec![txt(vec![bind(index(spread_arr(lead), "1")), lit(";"), bind(member(spread_arr(lead), "length"))])],
+                // readers of the list's length / single items next to a loop over it (splice-shaped trees)
+                6 => vec![txt(vec![bind(member(id("c"), "length")), lit(";"), bind(index(id("c"), "0")), lit(";"), bind(member(id("list"), "length"))]), for_(id("c"), None, vec![txt(vec![bind(id("item")), lit(",")])])],
+                7 => vec![
+                    Node::El(crate::model::wxml::El { tag: "v".into(), attrs: vec![crate::model::wxml::Attr { kind: crate::model::wxml::AttrKind::Plain, name: "n".into(), val: Some(Val::Bind(member(id("list"), "length"))) }], slot: None, slot_refs: vec![], kids: vec![] }),
+                    for_(id("list"), if keyed { Some("id") } else { None }, vec![txt(vec![bind(member(id("item"), "v")), lit("#"), bind(member(id("list"), "length"))])]),
+                ],
                 // loop inside a called template whose data carries the list and an outside field
                 _ => {
                     named.push(("t2".to_string(), vec![for_(id("list"), if keyed { Some("id") } else { None }, vec![txt(vec![bind(member(id("item"), "v")), lit("~"), bind(id("a"))])])]));
